@@ -212,6 +212,8 @@ func hashValue(h *maphash.Hash, v reflect.Value) {
 	write(v)
 }
 
+var jsonNumberType = reflect.TypeFor[json.Number]()
+
 // jsonNumber converts a numeric value or a json.Number to a [big.Rat].
 // If v is not a number, it returns nil, false.
 func jsonNumber(v reflect.Value) (*big.Rat, bool) {
@@ -262,6 +264,17 @@ func jsonType(v reflect.Value) (string, bool) {
 	case reflect.Bool:
 		return "boolean", true
 	case reflect.String:
+		if v.Type() == jsonNumberType {
+			// A json.Number is a number, whatever its Go kind.
+			r, ok := jsonNumber(v)
+			if !ok {
+				return "", false
+			}
+			if r.IsInt() {
+				return "integer", true
+			}
+			return "number", true
+		}
 		return "string", true
 	case reflect.Slice, reflect.Array:
 		return "array", true
